@@ -25,6 +25,7 @@ import (
 	"0chain.net/chaincore/block"
 	"0chain.net/chaincore/transaction"
 	"0chain.net/core/common"
+	"0chain.net/core/datastore"
 	"0chain.net/core/memorystore"
 	"0chain.net/sharder/blockdb"
 	"0chain.net/sharder/blockstore"
@@ -435,6 +436,9 @@ type blkIn struct {
 	MBStart  int64  `json:"mb_start"`
 	MBNumber int64  `json:"mb_number"`
 	Tickets  int    `json:"tickets"`
+	// other encoders used in the same process right before this block is written (pooled
+	// encoder state must not leak): tomsgpack | frommsgpack | tojson | writejson
+	Pre []string `json:"pre,omitempty"`
 }
 
 func mkBlock(in blkIn) *block.Block {
@@ -536,6 +540,27 @@ func runStore(h hist, dir string, kinds map[string]int) string {
 	fail := ""
 	for _, in := range h.Blocks {
 		b := mkBlock(in)
+		for _, pre := range in.Pre {
+			func() {
+				defer func() { _ = recover() }()
+				switch pre {
+				case "tomsgpack":
+					_ = datastore.ToMsgpack(b).Len()
+				case "frommsgpack":
+					// the n2n / memory-store codec: what it encodes it decodes to an equal block
+					buf := datastore.ToMsgpack(b).Bytes()
+					nb := block.Provider().(*block.Block)
+					if err := common.FromMsgpack(buf, nb); err == nil && canon(nb) != canon(b) && fail == "" {
+						fail = "msgpack-entity-codec-read-back-differs"
+					}
+				case "tojson":
+					_ = datastore.ToJSON(b).Len()
+				case "writejson":
+					_ = datastore.WriteJSON(io.Discard, b)
+				}
+				kinds["interleaved-"+pre]++
+			}()
+		}
 		if err := st.Write(b); err != nil {
 			kinds["store-write-error"]++
 			if len(in.Hash) >= 5 && fail == "" {
@@ -832,7 +857,7 @@ func pick(x, n int) int {
 
 func genStore(r *vh.Rand) hist {
 	h := hist{Kind: "store"}
-	n := r.Range(1, 6)
+	n := r.Range(1, 12)
 	hx := func(n int) string { return hex.EncodeToString(randBytes(r, n, nil)) }
 	var hashes []string
 	for i := 0; i < n; i++ {
@@ -855,6 +880,9 @@ func genStore(r *vh.Rand) hist {
 			if r.Chance(1, 3) {
 				in.MBStart = in.Round - 1 // carries a magic block, not its starting round
 			}
+		}
+		for k := r.Intn(4); k > 0; k-- {
+			in.Pre = append(in.Pre, []string{"tomsgpack", "frommsgpack", "tojson", "writejson", "tomsgpack"}[r.Intn(5)])
 		}
 		h.Blocks = append(h.Blocks, in)
 	}
